@@ -67,4 +67,22 @@ PROPS = {
                     "ptb64 round trip validated by correspondence"],
         "assumptions": ["hits/dets input naming an index twice and b8 padding bits that are set are declared don't-care for bit values (no writer produces them); only safety is compared there"],
     },
+    "C20": {
+        "lean_modules": ["StimModel.Props.C20", "StimModel.Core.Transpose", "StimModel.Core.Bits"],
+        "areas": [
+            {"area": "bits", "n": {"quick": 2400, "thorough": 60000}},
+            {"area": "pauli", "n": {"quick": 900, "thorough": 20000}},
+            {"area": "tableau", "n": {"quick": 150, "thorough": 3000}},
+            {"area": "tsim", "n": {"quick": 150, "thorough": 3000}},
+        ],
+        "rule": "simd_bits / simd_bits_range_ref / simd_bit_table operations (xor, and, or, not, popcnt, not_zero, countr_zero, intersects, subset, shifts, add, sub, truncated overwrite, "
+                "clear_bits_past, operator<, swap, transposed, transpose_into, do_square_transpose, square_mat_mul, inverse_assuming_lower_triangular, slice_maj, concat_major, "
+                "read_across_majors, inplace_transpose_64x64, bitword popcount) on sizes covering every residue class around 64/128/256 up to 700 bits and 257x257 tables, with garbage in the padding "
+                "where the API allows; each evaluated at W=64,128,256 (results must be identical) and compared with the bit-by-bit Lean definition; plus cross-width replays of Pauli, tableau and "
+                "single-shot simulation cases; distinct = distinct case descriptions",
+        "trusted_base": ["AVX2/SSE2 intrinsics are compared, not modelled"],
+        "partial": ["block_transpose_index (address permutation of the blocked rectangular transpose) is validated by correspondence only",
+                    "cross-build (-mno-avx2 / -msse2 only) replays are not run; the three widths are instantiated inside one AVX2 build as the unit tests do"],
+        "assumptions": [],
+    },
 }
